@@ -872,6 +872,10 @@ func runC19Pair(c *Ctx) {
 						if !configOnly(rv, arg, memo) {
 							maximal = true
 						}
+					} else if _, isStore := r.(*ssa.Store); isStore {
+						// stored (into the returned XY): a configuration value handed
+						// back as is, e.g. the centre for the projected origin — nothing
+						// is combined with the argument
 					} else {
 						maximal = true
 					}
